@@ -226,6 +226,12 @@ func (w *World) checkEpoch(n int64, before, after *Obs, e *Expect, hookErr error
 	if e.P.Sign() == 0 {
 		vac["zero_provision_epoch"]++
 	}
+	if e.CPZero {
+		vac["community_pool_record_share_truncates_to_zero"]++
+	}
+	if e.CPPos {
+		vac["community_pool_record_share_positive"]++
+	}
 }
 
 // runHooks drives AfterEpochEnd(mintEpochID, n) for n = 1..upTo on a branch of the base context.
